@@ -14,7 +14,7 @@ import (
 func init() {
 	register("C30", c30)
 	meta("C30", Meta{
-		Text:      "Decides structural necessary conditions of 'saved IAVL versions are immutable': (1) copy-on-write discipline over tm2/pkg/iavl by SSA value-origin analysis — every store into a *Node field is on a node allocated/cloned/decoded in that function, on a parameter all of whose in-package callers pass such a node (transitively; calcHeightAndSize), or behind the `nodeKey == nil` gate (balance, the key-assigning closure of saveNewNodes); in-memory child pointers are dropped (set to nil) only on persisted nodes or in the two listed post-save places; key/value bytes are never written in place; (2) the hash memo is written only behind an `if node.hash != nil { return }` test, by a closed writer set; (3) mutators with a freshness contract are called directly and only inside the package; MutableTree.Set/Remove assign the working root only from the recursive operation and Remove only behind its error test; SaveVersion moves version/lastSaved only after a checked ndb.Commit; Rollback restores root from lastSaved. Level 'other': code shape, not AVL balance or proof soundness.",
+		Text:      "Decides structural necessary conditions of 'saved IAVL versions are immutable': (1) copy-on-write discipline over tm2/pkg/iavl by SSA value-origin analysis — every store into a *Node field is on a node allocated/cloned/decoded in that function, on a parameter all of whose in-package callers pass such a node (transitively; calcHeightAndSize), or behind the `nodeKey == nil` gate (balance, the key-assigning closure of saveNewNodes); in-memory child pointers are dropped (set to nil) only on persisted nodes or in the two listed post-save places; key/value bytes are never written in place; (2) the hash memo is written only behind an `if node.hash != nil { return }` test, by a closed writer set; (3) mutators with a freshness contract are called directly and only inside the package; MutableTree.Set/Remove assign the working root only from the recursive operation and Remove only behind its error test; SaveVersion moves version/lastSaved only after a checked ndb.Commit, and a success exit that does not pass Commit (idempotent re-save) replaces the working root by the root loaded from the node DB (GetNode of GetRoot); Rollback restores root from lastSaved. Level 'other': code shape, not AVL balance or proof soundness.",
 		Note:      "Not covered: AVL rotation arithmetic and balance invariant, ordered iteration, orphan/pruning correctness of nodedb, ICS23/legacy proof soundness, fast-node cache coherence. Fields hash and isLegacy are treated as memo/format flags (hash has its own rule).",
 		Technique: "go/ssa value-origin (freshness) analysis with interprocedural parameter contracts; go/cfg gates; who-may-write tables",
 		Ref:       "DESIGN.md §2 C23/C30",
@@ -30,6 +30,8 @@ func init() {
 		Mutant{"clone-evicts-dirty", nd, "\t\tnode.leftNode = nil\n\t\tnode.rightNode = nil\n\t}\n\n\treturn &Node{", "\t}\n\tnode.leftNode = nil\n\tnode.rightNode = nil\n\n\treturn &Node{", "fresh-"},
 		Mutant{"hash-memo-unconditional", nd, "func (node *Node) _hash(version int64) []byte {\n\tif node.hash != nil {\n\t\treturn node.hash\n\t}\n", "func (node *Node) _hash(version int64) []byte {\n", "fresh-write tm2/pkg/iavl.(*Node)._hash writes Node.hash"},
 		Mutant{"remove-publishes-on-error", mt, "\tnewRoot, _, value, removed, err := tree.recursiveRemove(tree.root, key)\n\tif err != nil {\n\t\treturn nil, false, err\n\t}", "\tnewRoot, _, value, removed, err := tree.recursiveRemove(tree.root, key)\n\tif err != nil && newRoot == nil {\n\t\treturn nil, false, err\n\t}", "publish-gated"},
+		Mutant{"idempotent-save-keeps-working-nodes", mt, "\t\t\ttree.root = existingRoot\n", "", "save-adopts-persisted"},
+		Mutant{"idempotent-save-adopts-other-root", mt, "\t\t\ttree.root = existingRoot\n", "\t\t\ttree.root = tree.lastSaved.root\n", "save-adopts-persisted"},
 		Mutant{"rollback-keeps-root", mt, "\t\ttree.ImmutableTree = tree.lastSaved.clone()", "\t\ttree.lastSaved = tree.lastSaved.clone()", "rollback-restores"},
 	)
 }
@@ -174,6 +176,58 @@ func c30(c *engine.Ctx) {
 			}
 		}
 		c.Floor("save-order", n, 2)
+	}
+	// SaveVersion: every success exit either persisted the working nodes (passes the batch
+	// Commit) or replaced the working root by the root loaded from the node DB for that version.
+	if f := c.MustFunc(T + "SaveVersion"); f != nil {
+		g := f.Graph()
+		commits := engine.Outers(f.DeepCallsTo(2, P+"(*nodeDB).Commit"))
+		rootAssigns := f.DeepFind(2, func(fn *engine.Fn, n ast.Node) bool {
+			as, ok := n.(*ast.AssignStmt)
+			if !ok {
+				return false
+			}
+			for _, l := range as.Lhs {
+				if tgSelField(fn.Info(), l) == rootF.Origin() {
+					return true
+				}
+			}
+			return false
+		})
+		n := 0
+		for _, r := range tgSuccessReturns(f) {
+			if g.MustPass(r, commits) {
+				continue // the node-saving path
+			}
+			n++
+			ok := false
+			why := "a success return of SaveVersion that does not pass ndb.Commit must be dominated by `tree.root = <root loaded from the node DB for this version>`: otherwise never-persisted working nodes (hashed for this version) are carried into the next version"
+			for _, d := range rootAssigns {
+				if !g.Dominates(d.Outer, r) {
+					continue
+				}
+				as := d.Inner.Node.(*ast.AssignStmt)
+				rhs := tgRHSFor(d.Inner.Fn, as, rootF)
+				if rhs == nil {
+					continue
+				}
+				// resolve a helper parameter to the argument passed from SaveVersion (one level)
+				fn, e := d.Inner.Fn, rhs
+				if d.Inner != d.Outer && len(d.Chain) == 1 {
+					l := &tgLevel{F: d.Chain[0], Parent: &tgLevel{F: f}, Call: d.Outer.Call, Site: d.Outer}
+					if re, top := tgResolveExpr(l, rhs); top.Parent == nil {
+						fn, e = f, re
+					}
+				}
+				if okO, whyO := tgLoadedRoot(fn, e, P+"(*nodeDB).GetNode", P+"(*nodeDB).GetRoot"); okO {
+					ok = true
+				} else {
+					why = "tree.root is assigned `" + engine.ExprString(rhs) + "`, which is not the root loaded from the node DB: " + whyO
+				}
+			}
+			c.Check("save-adopts-persisted", f.Name+" success exit without Commit adopts the persisted root", r.Pos(), ok, why)
+		}
+		c.Floor("save-adopts-persisted", n, 1)
 	}
 	if f := c.MustFunc(T + "Rollback"); f != nil {
 		info := f.Info()
